@@ -16,9 +16,10 @@
      is represented by [a] itself: [bal_d a], [deleg a v], [ubds] with [u_orc = a] are the balance,
      delegations and unbonding entries of that keyless account.
    * one denomination (the staking coin); sdkmath.Int = Z.  LegacyDec = Z scaled by 10^18.
-   * staking is what the keeper uses of it: Delegate / Undelegate / BeginRedelegate on bonded,
-     never-slashed validators (1 share = 1 token), unbonding and redelegation entries with completion
-     time, maturation in the staking end blocker.  Distribution: the reward paid out by the
+   * staking is what the keeper uses of it: validators with Tokens and DelegatorShares, Delegate /
+     Undelegate / BeginRedelegate with the shares <-> tokens conversions of types/validator.go
+     (LegacyDec rounding transcribed), Keeper.Slash of a validator at the current height, unbonding and
+     redelegation entries with completion time, maturation in the staking end blocker.  Distribution: the reward paid out by the
      delegation hooks / WithdrawDelegatorReward is an input [rw] of the operation (observed on the
      real chain by the harness); the model decides only WHERE it goes.
    * a transaction that returns an error leaves no trace (cache branch discarded): [Err].
@@ -55,11 +56,14 @@ Record obj := mkObj { ob_nonce : Z; ob_height : Z; ob_conf : list (Z * Z) }.
 
 Inductive kind := KSet | KBatch | KCall.
 
+(* the staking validators the oracles delegate to: operator ids, Tokens, DelegatorShares (LegacyDec scaled 10^18) *)
+Record vset := mkV { v_ids : list Z; v_tok : Z -> Z; v_shr : Z -> Z }.
+
 Record state := mkState {
   height : Z;                      (* ctx.BlockHeight() of the open block *)
   now : Z;                         (* ctx.BlockTime() of the open block, seconds *)
   ubtime : Z;                      (* staking UnbondingTime *)
-  vals : list Z;                   (* bonded validators *)
+  vals : vset;                     (* bonded validators with their tokens / delegator shares *)
   prm : params;
   proposal : list Z;               (* ProposalOracle.Oracles, key 0x38 *)
   keys : list Z;                   (* oracle addresses with a record, iteration domain of 0x12 *)
@@ -67,7 +71,7 @@ Record state := mkState {
   by_bridger : Z -> option Z;      (* 0x14 *)
   by_ext : Z -> option Z;          (* 0x13 *)
   total_power : Z;                 (* 0x39 *)
-  deleg : Z -> Z -> Z;             (* tokens delegated by the delegate address of oracle to validator; 0 = no delegation *)
+  deleg : Z -> Z -> Z;             (* SHARES (LegacyDec scaled 10^18) of the delegate address of oracle at validator; 0 = no delegation *)
   ubds : list ubd;
   reds : list red;
   bal_o : Z -> Z;                  (* bank balance of the oracle account *)
@@ -139,6 +143,81 @@ Definition has_ubd (a v : Z) (l : list ubd) : bool :=
 Definition has_red_into (a v : Z) (l : list red) : bool :=
   existsb (fun r => (r_orc r =? a) && (r_dst r =? v)) l.
 
+(* ---------------- x/staking share arithmetic (types/validator.go, keeper/delegation.go) ----------------
+   LegacyDec = Z scaled by 10^18; all operands are non-negative, big.Int Quo = floor. *)
+Definition has_val (s : state) (v : Z) : bool := memZ v (v_ids (vals s)).
+Definition vtok (s : state) (v : Z) : Z := v_tok (vals s) v.
+Definition vshr (s : state) (v : Z) : Z := v_shr (vals s) v.
+
+(* chopPrecisionAndRound: banker's rounding of x / 10^18 *)
+Definition round_he (x : Z) : Z :=
+  let q := x / dec_one in
+  let r := x mod dec_one in
+  if r =? 0 then q
+  else if 2 * r <? dec_one then q
+  else if dec_one <? 2 * r then q + 1
+  else if Z.even q then q else q + 1.
+
+(* Validator.TokensFromShares(sh).TruncateInt() : shares.MulInt(tokens).Quo(delegatorShares) *)
+Definition tokens_from_shares (tok shr sh : Z) : Z := round_he (sh * tok * dec_one * dec_one / shr) / dec_one.
+(* Validator.TokensFromSharesTruncated(sh).TruncateInt() *)
+Definition tokens_from_shares_trunc (tok shr sh : Z) : Z := sh * tok * dec_one * dec_one / shr / dec_one / dec_one.
+(* Validator.SharesFromTokens(amt) : delegatorShares.MulInt(amt).QuoInt(tokens) *)
+Definition shares_from_tokens (tok shr amt : Z) : Z := shr * amt / tok.
+(* Validator.SharesFromTokensTruncated(amt) : delegatorShares.MulInt(amt).QuoTruncate(Dec(tokens)) *)
+Definition shares_from_tokens_trunc (tok shr amt : Z) : Z := shr * amt * dec_one * dec_one / (tok * dec_one) / dec_one.
+
+Definition set_val (V : vset) (v tok shr : Z) : vset := mkV (v_ids V) (upd (v_tok V) v tok) (upd (v_shr V) v shr).
+
+(* keeper.Delegate (validator bonded): AddTokensFromDel, delegation shares grow by the issued shares *)
+Definition stk_delegate (V : vset) (dl : Z -> Z -> Z) (a v amt : Z) : option (vset * (Z -> Z -> Z)) :=
+  let tok := v_tok V v in
+  let shr := v_shr V v in
+  if negb (memZ v (v_ids V)) then None                            (* ErrNoValidatorFound *)
+  else if (tok =? 0) && (0 <? shr) then None                      (* ErrDelegatorShareExRateInvalid *)
+  else
+    let issued := if shr =? 0 then amt * dec_one else shares_from_tokens tok shr amt in
+    Some (set_val V v (tok + amt) (shr + issued), upd2 dl a v (dl a v + issued)).
+
+(* delegate.go GetOracleDelegateToken *)
+Definition delegate_token (V : vset) (dl : Z -> Z -> Z) (a v : Z) : option Z :=
+  let tok := v_tok V v in
+  let shr := v_shr V v in
+  let dsh := dl a v in
+  if dsh =? 0 then None                                           (* GetDelegation: no delegation *)
+  else if negb (memZ v (v_ids V)) then None                       (* GetValidator *)
+  else
+    let t0 := tokens_from_shares_trunc tok shr dsh in
+    if tok =? 0 then None                                         (* SharesFromTokensTruncated: ErrInsufficientShares *)
+    else
+      let sht := shares_from_tokens_trunc tok shr t0 in
+      Some (if dsh <? sht then tokens_from_shares_trunc tok shr sht else t0).
+
+(* ValidateUnbondAmount + keeper.Unbond for amount amt: new validator set, new delegations, tokens returned *)
+Definition stk_unbond (V : vset) (dl : Z -> Z -> Z) (a v amt : Z) : option (vset * (Z -> Z -> Z) * Z) :=
+  let tok := v_tok V v in
+  let shr := v_shr V v in
+  let dsh := dl a v in
+  if amt <=? 0 then None                                          (* msg server: amount must be positive *)
+  else if negb (memZ v (v_ids V)) then None
+  else if dsh =? 0 then None
+  else if tok =? 0 then None                                      (* SharesFromTokens: ErrInsufficientShares *)
+  else
+    let sh := shares_from_tokens tok shr amt in
+    let sht := shares_from_tokens_trunc tok shr amt in
+    if dsh <? sht then None                                       (* "invalid shares amount" *)
+    else
+      let sh' := if dsh <? sh then dsh else sh in
+      let remaining := shr - sh' in
+      let issued := if remaining =? 0 then tok else tokens_from_shares tok shr sh' in
+      Some (set_val V v (tok - issued) remaining, upd2 dl a v (dsh - sh'), issued).
+
+Definition set_vals_deleg (s : state) (V : vset) (dl : Z -> Z -> Z) : state :=
+  mkState (height s) (now s) (ubtime s) V (prm s) (proposal s) (keys s) (recs s) (by_bridger s) (by_ext s)
+    (total_power s) dl (ubds s) (reds s) (bal_o s) (bal_d s) (sets s) (latest_set s) (slashed_set s)
+    (last_slash_height s) (batches s) (slashed_batch_block s) (calls s) (slashed_call s) (next_call s)
+    (burned s) (gov_und s).
+
 (* ---------------- BondedOracle ---------------- *)
 Definition bond (s : state) (a b e v amt : Z) : res :=
   if negb (memZ a (proposal s)) then Err e_notfound
@@ -148,18 +227,20 @@ Definition bond (s : state) (a b e v amt : Z) : res :=
   else if amt <? p_threshold (prm s) then Err e_below
   else if max_stake (prm s) <? amt then Err e_above
   else if bal_o s a <? amt then Err e_bank                       (* bank SendCoins oracle -> delegate address *)
-  else if negb (memZ v (vals s)) then Err e_staking              (* staking Delegate: validator must exist *)
-  else
+  else match stk_delegate (vals s) (deleg s) a v amt with         (* staking Delegate *)
+  | None => Err e_staking
+  | Some (V', dl') =>
     let r := mkOracle a b e amt (height s) true v 0 in
-    let s1 := mkState (height s) (now s) (ubtime s) (vals s) (prm s) (proposal s)
+    let s1 := mkState (height s) (now s) (ubtime s) V' (prm s) (proposal s)
                 (if memZ a (keys s) then keys s else keys s ++ [a])
                 (upd (recs s) a (Some r)) (upd (by_bridger s) b (Some a)) (upd (by_ext s) e (Some a))
-                (total_power s) (upd2 (deleg s) a v (deleg s a v + amt)) (ubds s) (reds s)
+                (total_power s) dl' (ubds s) (reds s)
                 (upd (bal_o s) a (bal_o s a - amt)) (bal_d s)
                 (sets s) (latest_set s) (slashed_set s) (last_slash_height s) (batches s)
                 (slashed_batch_block s) (calls s) (slashed_call s) (next_call s) (burned s)
                 (upd (gov_und s) a 0) in
-    Ok (refresh_power s1).
+    Ok (refresh_power s1)
+  end.
 
 (* ---------------- AddDelegate ---------------- *)
 Definition add_delegate (s : state) (a amt rw : Z) : res :=
@@ -177,15 +258,16 @@ Definition add_delegate (s : state) (a amt rw : Z) : res :=
       else if max_stake (prm s) <? amount' then Err e_above
       else if (0 <? sl) && (bal_o s a <? sl) then Err e_bank      (* SendCoinsFromAccountToModule + Burn *)
       else if (0 <? dc) && (bal_o s a - sl <? dc) then Err e_bank (* SendCoins oracle -> delegate address *)
-      else if (0 <? dc) && negb (memZ (o_val r) (vals s)) then Err e_staking
-      else
+      else match (if 0 <? dc then stk_delegate (vals s) (deleg s) a (o_val r) dc else Some (vals s, deleg s)) with
+      | None => Err e_staking
+      | Some (V', dl') =>
         let had := negb (deleg s a (o_val r) =? 0) in
         let paid := if (0 <? dc) && had then rw else 0 in        (* staking hook withdraws pending rewards *)
         let r' := mkOracle (o_addr r) (o_bridger r) (o_ext r) amount'
                     (if o_online r then o_start r else height s) true (o_val r) 0 in
-        let s1 := mkState (height s) (now s) (ubtime s) (vals s) (prm s) (proposal s) (keys s)
+        let s1 := mkState (height s) (now s) (ubtime s) V' (prm s) (proposal s) (keys s)
                     (upd (recs s) a (Some r')) (by_bridger s) (by_ext s) (total_power s)
-                    (if 0 <? dc then upd2 (deleg s) a (o_val r) (deleg s a (o_val r) + dc) else deleg s)
+                    dl'
                     (ubds s) (reds s)
                     (upd (bal_o s) a (bal_o s a - sl - (if 0 <? dc then dc else 0)))
                     (upd (bal_d s) a (bal_d s a + paid))
@@ -193,6 +275,7 @@ Definition add_delegate (s : state) (a amt rw : Z) : res :=
                     (slashed_batch_block s) (calls s) (slashed_call s) (next_call s)
                     (burned s + (if 0 <? sl then sl else 0)) (gov_und s) in
         Ok (refresh_power s1)
+      end
   end.
 
 (* ---------------- ReDelegate ---------------- *)
@@ -203,20 +286,29 @@ Definition re_delegate (s : state) (a v rw : Z) : res :=
     if negb (o_online r) then Err e_offline
     else if o_val r =? v then Err e_invalid
     else
-      let tok := deleg s a (o_val r) in
-      if tok =? 0 then Err e_staking                              (* GetDelegation: no delegation *)
-      else if negb (memZ (o_val r) (vals s)) then Err e_staking   (* GetValidator *)
-      else if negb (memZ v (vals s)) then Err e_staking           (* ErrBadRedelegationDst *)
-      else if has_red_into a (o_val r) (reds s) then Err e_staking (* ErrTransitiveRedelegation *)
-      else
-        let r' := mkOracle (o_addr r) (o_bridger r) (o_ext r) (o_amount r) (o_start r) (o_online r) v (o_slash r) in
-        Ok (mkState (height s) (now s) (ubtime s) (vals s) (prm s) (proposal s) (keys s)
-              (upd (recs s) a (Some r')) (by_bridger s) (by_ext s) (total_power s)
-              (upd2 (upd2 (deleg s) a (o_val r) 0) a v (deleg s a v + tok))
-              (ubds s) (reds s ++ [mkRed a v (now s + ubtime s)])
-              (bal_o s) (upd (bal_d s) a (bal_d s a + rw))
-              (sets s) (latest_set s) (slashed_set s) (last_slash_height s) (batches s)
-              (slashed_batch_block s) (calls s) (slashed_call s) (next_call s) (burned s) (gov_und s))
+      match delegate_token (vals s) (deleg s) a (o_val r) with   (* GetOracleDelegateToken *)
+      | None => Err e_staking
+      | Some tok =>
+        if negb (has_val s v) then Err e_staking                   (* ErrBadRedelegationDst *)
+        else if has_red_into a (o_val r) (reds s) then Err e_staking (* ErrTransitiveRedelegation *)
+        else match stk_unbond (vals s) (deleg s) a (o_val r) tok with (* ValidateUnbondAmount, Unbond from the source *)
+        | None => Err e_staking
+        | Some (V1, dl1, back) =>
+          if back =? 0 then Err e_staking                          (* ErrTinyRedelegationAmount *)
+          else match stk_delegate V1 dl1 a v back with             (* Delegate to the destination *)
+          | None => Err e_staking
+          | Some (V2, dl2) =>
+            let r' := mkOracle (o_addr r) (o_bridger r) (o_ext r) (o_amount r) (o_start r) (o_online r) v (o_slash r) in
+            Ok (mkState (height s) (now s) (ubtime s) V2 (prm s) (proposal s) (keys s)
+                  (upd (recs s) a (Some r')) (by_bridger s) (by_ext s) (total_power s)
+                  dl2
+                  (ubds s) (reds s ++ [mkRed a v (now s + ubtime s)])
+                  (bal_o s) (upd (bal_d s) a (bal_d s a + rw))
+                  (sets s) (latest_set s) (slashed_set s) (last_slash_height s) (batches s)
+                  (slashed_batch_block s) (calls s) (slashed_call s) (next_call s) (burned s) (gov_und s))
+          end
+        end
+      end
   end.
 
 (* ---------------- EditBridger ---------------- *)
@@ -292,20 +384,24 @@ Definition gov_unbond1 (rws : list (Z * Z)) (acc : option state) (r : oracle) : 
   | None => None
   | Some s =>
     let a := o_addr r in
-    let tok := deleg s a (o_val r) in
-    if tok =? 0 then None                                         (* GetDelegation error *)
-    else if negb (memZ (o_val r) (vals s)) then None
-    else if max_entries <=? count_ubd a (o_val r) (ubds s) then None (* ErrMaxUnbondingDelegationEntries *)
-    else
-      let r' := mkOracle (o_addr r) (o_bridger r) (o_ext r) (o_amount r) (o_start r) false (o_val r) (o_slash r) in
-      Some (mkState (height s) (now s) (ubtime s) (vals s) (prm s) (proposal s) (keys s)
-              (upd (recs s) a (Some r')) (by_bridger s) (by_ext s) (total_power s)
-              (upd2 (deleg s) a (o_val r) 0)
-              (ubds s ++ [mkUbd a (o_val r) (now s + ubtime s) tok]) (reds s)
-              (bal_o s) (upd (bal_d s) a (bal_d s a + lookup_rw a rws))
-              (sets s) (latest_set s) (slashed_set s) (last_slash_height s) (batches s)
-              (slashed_batch_block s) (calls s) (slashed_call s) (next_call s) (burned s)
-              (upd (gov_und s) a (gov_und s a + tok)))
+    match delegate_token (vals s) (deleg s) a (o_val r) with      (* GetOracleDelegateToken *)
+    | None => None
+    | Some tok =>
+      if max_entries <=? count_ubd a (o_val r) (ubds s) then None (* ErrMaxUnbondingDelegationEntries *)
+      else match stk_unbond (vals s) (deleg s) a (o_val r) tok with (* staking Undelegate *)
+      | None => None
+      | Some (V', dl', back) =>
+        let r' := mkOracle (o_addr r) (o_bridger r) (o_ext r) (o_amount r) (o_start r) false (o_val r) (o_slash r) in
+        Some (mkState (height s) (now s) (ubtime s) V' (prm s) (proposal s) (keys s)
+                (upd (recs s) a (Some r')) (by_bridger s) (by_ext s) (total_power s)
+                dl'
+                (ubds s ++ [mkUbd a (o_val r) (now s + ubtime s) back]) (reds s)
+                (bal_o s) (upd (bal_d s) a (bal_d s a + lookup_rw a rws))
+                (sets s) (latest_set s) (slashed_set s) (last_slash_height s) (batches s)
+                (slashed_batch_block s) (calls s) (slashed_call s) (next_call s) (burned s)
+                (upd (gov_und s) a (gov_und s a + back)))
+      end
+    end
   end.
 
 Definition gov_set (s : state) (l : list Z) (rws : list (Z * Z)) : res :=
@@ -398,6 +494,19 @@ Definition add_call (s : state) : res :=
 
 Definition del_call (s : state) (n : Z) : res :=
   Ok (set_objs s KCall (filter (fun x => negb (ob_nonce x =? n)) (calls s))).
+
+(* staking Keeper.Slash at the current height (no unbonding entries / redelegations are touched): the validator
+   loses min(amount, Tokens) tokens, its shares stay; amount = trunc(power * 10^20 * fraction) *)
+Definition slash_val (s : state) (v amount : Z) : res :=
+  if negb (has_val s v) then Ok s
+  else
+    let burn := Z.max 0 (Z.min amount (vtok s v)) in
+    Ok (set_vals_deleg s (set_val (vals s) v (vtok s v - burn) (vshr s v)) (deleg s)).
+
+(* environment: other delegators of validator v (other modules' oracles, ordinary delegators) changed its tokens
+   and shares; observed values *)
+Definition env_val (s : state) (v tok shr : Z) : res :=
+  Ok (set_vals_deleg s (set_val (vals s) v tok shr) (deleg s)).
 
 Definition fund (s : state) (a amt : Z) : res :=
   Ok (mkState (height s) (now s) (ubtime s) (vals s) (prm s) (proposal s) (keys s)
@@ -544,6 +653,8 @@ Inductive op :=
 | AddCall
 | DelCall (n : Z)
 | Fund (a amt : Z)
+| SlashVal (v amount : Z)
+| EnvVal (v tok shr : Z)
 | EndBlock (t_end t_next : Z) (pd : bool).
 
 Definition step (s : state) (o : op) : res :=
@@ -562,6 +673,8 @@ Definition step (s : state) (o : op) : res :=
   | AddCall => add_call s
   | DelCall n => del_call s n
   | Fund a amt => fund s a amt
+  | SlashVal v amount => slash_val s v amount
+  | EnvVal v tok shr => env_val s v tok shr
   | EndBlock t1 t2 pd => end_block s t1 t2 pd
   end.
 
@@ -571,6 +684,6 @@ Definition exec (s : state) (o : op) : state :=
 
 Definition run (s : state) (ops : list op) : state := fold_left exec ops s.
 
-Definition init (h t ub : Z) (vs : list Z) (p : params) : state :=
+Definition init (h t ub : Z) (vs : vset) (p : params) : state :=
   mkState h t ub vs p [] [] (fun _ => None) (fun _ => None) (fun _ => None) 0
     (fun _ _ => 0) [] [] (fun _ => 0) (fun _ => 0) [] 0 0 0 [] 0 [] 0 1 0 (fun _ => 0).
